@@ -364,6 +364,11 @@ type fp struct{ key, rel, recv, name string }
 
 var fingerprints []fp
 
+// generators are registered by the per-property files (init functions).
+var generators []func()
+
+func register(g func()) { generators = append(generators, g) }
+
 func addFP(key, rel, recv, name string) { fingerprints = append(fingerprints, fp{key, rel, recv, name}) }
 
 func main() {
@@ -371,8 +376,9 @@ func main() {
 	flag.StringVar(&outDir, "out", "/verif/lean/RSVerif/Generated", "output dir")
 	flag.Parse()
 	os.MkdirAll(outDir, 0755)
-	genCrc()
-	genAll()
+	for _, g := range generators {
+		g()
+	}
 	// fingerprints
 	sort.Slice(fingerprints, func(i, j int) bool { return fingerprints[i].key < fingerprints[j].key })
 	var b strings.Builder
